@@ -14,9 +14,10 @@ THEOREMS = [
     'Pfst.C04.putSrc_flat', 'Pfst.C04.putSrc_delete', 'Pfst.C04.putSrc_normal', 'Pfst.C04.putSrc_lines_same',
     'Pfst.C04.shiftCol_eq', 'Pfst.C04.getSrc_before', 'Pfst.C04.getSrc_after', 'Pfst.C04.getSrc_container',
     'Pfst.C04.off_arith', 'Pfst.C04.c2b_bridge', 'Pfst.C04.dcol_bytes',
+    'Pfst.C04.placed_text', 'Pfst.C04.placed_bytes', 'Pfst.C04.placed_chars_false', 'Pfst.Text.off_putSrc_placed',
     'Pfst.C04.lead_in_bounds_partial', 'Pfst.C04.lead_only_trivia_partial', 'Pfst.C04.lead_none_spec',
     'Pfst.C04.lead_block_spec', 'Pfst.C04.trail_scan_partial',
-    'Pfst.C04.triviaParams_total_partial', 'Pfst.C04.triviaParams_total_false',
+    'Pfst.C04.triviaParams_total', 'Pfst.Trivia.oneParam_str', 'Pfst.Trivia.getTriviaParams_total',
     'Pfst.Text.getFlat_before', 'Pfst.Text.getFlat_after', 'Pfst.Text.getFlat_container', 'Pfst.Text.getSrc_flat',
     'Pfst.Text.off_putSrc_before', 'Pfst.Text.off_putSrc_after', 'Pfst.Text.off_mono',
     'Pfst.Trivia.scanUp_spec', 'Pfst.Trivia.spaceUp_spec', 'Pfst.Trivia.leadFinish_space', 'Pfst.Trivia.lead_modes',
@@ -29,10 +30,13 @@ RULE = ('correspondence: (a) FST._put_src on a real root, exhaustively over smal
         'to 7 lines over a richer alphabet with tabs, form feeds, non-ASCII, odd backslashes), every bound position, every '
         'comments value none/block/all/line/int and space False/True/0..3/7, vs the Lean model; (c) get_trivia_params and '
         '_check_opt_trivia on single values and 0-3-tuples of bool/int/str; (d) the model of regex \\s vs CPython over all '
-        'code points. sweep: real structured edits (delete / replace / insert of statements and of expression-list '
+        'code points; (e) placement: real replace of an unparenthesized expression by a (multi-line, non-ASCII) call, byte positions '
+        'of the new node and its children vs parse-at-origin + Pfst.Text.placeColBytes, ~70% with multi-byte text before. sweep: real structured edits (delete / replace / insert of statements and of expression-list '
         'elements, every trivia option, pep8space, elif_, docstr) on commented corpus programs (unique comments, some ending in a '
         'backslash / ascii art; injected multi-line str / bytes / f-string literals at every block depth; put code with '
-        'multi-line literals; insertions into elif chains that re-indent the chain, judged by tokens), judged with tokenize and '
+        'multi-line literals; insertions into elif chains that re-indent the chain, judged by tokens; two-step histories: an '
+        'expression is replaced by a call and then args[0] of the NEW call is replaced, ~70% with multi-byte text before the target on '
+        'its line, judged by byte-identical text outside the element and by tree == fresh parse after each step), judged with tokenize and '
         'line comparison only. distinct = distinct inputs; non-trivial = output differs from input')
 TRUSTED = [
     'modelled: fst_core._put_src (5 cases, source part) and _get_src, _params_offset on characters and bytes (bistr.c2b); '
@@ -58,8 +62,8 @@ LEVEL_TEXT = ('Lean 4 theorems about executable models: _put_src changes exactly
               'lines. Tied to /repo on every run by correspondence (exhaustive on small inputs) and by a tokenize-based '
               'sweep of real edits.')
 LEVEL_NOTE = ('Theorems are about the models; the property for whole structured edits (choice of rectangle by the slice code) '
-              'is checked by the sweep oracle, not proved. triviaParams_total is false on the pinned tree for the option '
-              'value "" (proved as triviaParams_total_false), the partial version excludes it.')
+              'is checked by the sweep oracle, not proved. triviaParams_total holds for the repaired option check (non-empty '
+              'strings anchored with \\Z); on a tree without that repair the correspondence of _check_opt_trivia breaks.')
 TECHNIQUE = 'Lean 4 proof (list induction, omega) + model-implementation correspondence + tokenize oracle sweep'
 
 
@@ -140,8 +144,8 @@ def _corr_trivia(ctx):
         bad = 0
         n = 0
         first = None
-        for off in range(0, len(all_items), 1500):          # bounded memory
-            items = all_items[off:off + 1500]
+        for off in range(0, len(all_items), 400):          # bounded memory
+            items = all_items[off:off + 400]
             impls = pmap(runner, items)
             cases = [{'f': fn, 'lines': lines, 'qs': qs} for lines, qs in items]
             try:
@@ -198,6 +202,20 @@ def _corr_params(ctx):
             unmapped.append(c.get('v', c.get('t')))
     ctx.dist.setdefault('correspondence_cases', {})[name] = len(cases)
     ctx.notes['trivia_values_accepted_by_check_options_but_not_mapped'] = sorted({repr(u) for u in unmapped})
+    for u in unmapped[:1]:
+        # the hypothesis/conclusion of triviaParams_total evaluated on the implementation itself
+        ctx.fail('C04|check_options|trivia|accepted-not-mapped',
+                 f'check_options accepts trivia={u!r} but get_trivia_params maps it to a comments value the trivia functions do '
+                 'not handle (the edit raises KeyError / AssertionError later)', {'trivia_value': u})
+    # a trailing newline is outside the model's string language (`$` vs `\\Z`): evaluate directly
+    from fst.fst_options import _check_opt_trivia
+    for v in ('all\n', 'block+3\n', ('all', 'line\n')):
+        ctx.corr_cases += 1
+        if _check_opt_trivia('trivia', v) is None:
+            ctx.fail('C04|check_options|trivia|accepted-not-mapped',
+                     f'check_options accepts trivia={v!r} (trailing newline) which get_trivia_params does not map to a handled value',
+                     {'trivia_value': list(v) if isinstance(v, tuple) else v, 'tuple': isinstance(v, tuple)})
+            break
     if bad:
         ctx.brk('correspondence', name, f'{bad}/{len(cases)} differ; first: ' + str(ctx.corr_disagreements[-min(bad, 20)])[:1200])
     # the regex \s
@@ -221,8 +239,45 @@ def _corr_params(ctx):
         ctx.brk('correspondence', 'line regexes vs Pfst.Trivia.re*', str([(l, a, b) for l, a, b in zip(lines, real, mo or []) if a != b][:5]))
 
 
+def _corr_place(ctx):
+    q = ctx.quick
+    rng = random.Random(ctx.rng.random())
+    progs = corpus.programs(rng, 150 if q else 1500, stdlib=10 if q else 100) + co.HAND_PROGRAMS
+    res = pmap(cc.place_cases, [(p, rng.randrange(1 << 30), 4 if q else 8) for p in progs])
+    items = [it for lst in res for it in lst]
+    name = 'replace(expr := call): positions of the new nodes vs Pfst.Text.placeLn/placeColBytes'
+    try:
+        outs = ctx.lean([c for c, _, _ in items])
+    except Exception as e:
+        ctx.brk('correspondence', name, f'driver error: {e}')
+        return
+    bad = nonplain = n = 0
+    first = None
+    for (c, impl, mb), mo in zip(items, outs):
+        m = mo.get('out', mo)
+        if not isinstance(m, dict) or m.get('lines') != impl['lines']:
+            nonplain += 1           # pfst did more than one plain splice (spaces, parentheses): placement not comparable
+            continue
+        n += 1
+        ctx.corr_cases += 1
+        ctx.count({'l': c['lines'], 'a': c['a'], 'p': c['put']}, True)
+        ctx.tally('place_multibyte_before_target', mb)
+        if m['placed'] != impl['placed']:
+            bad += 1
+            w = {'corr': name, 'lines': c['lines'][c['a'][0]:c['a'][2] + 1], 'put': c['put'], 'a': c['a'],
+                 'impl': impl['placed'][:8], 'model': m['placed'][:8]}
+            first = first or w
+            if len(ctx.corr_disagreements) < 20:
+                ctx.corr_disagreements.append(w)
+    ctx.dist.setdefault('correspondence_cases', {})[name] = n
+    ctx.notes['place_not_a_plain_splice'] = nonplain
+    if bad:
+        ctx.brk('correspondence', name, f'{bad}/{n} differ; first: ' + str(first)[:1200])
+
+
 def correspondence(ctx):
     _corr_put_src(ctx)
+    _corr_place(ctx)
     _corr_trivia(ctx)
     _corr_params(ctx)
 
@@ -242,15 +297,19 @@ def _programs(ctx, n, stdlib):
 
 def _run_sweep(ctx, progs, per):
     res = pmap(co.edit_cases, [(p, ctx.rng.randrange(1 << 30), per) for p in progs])
+    # two-step histories (replace an expression by a call, then edit a child of the new node), multi-byte text before the target
+    res += pmap(co.two_step_cases, [(p, ctx.rng.randrange(1 << 30), max(3, per // 2)) for p in progs])
     n = 0
     for lst in res:
         for it in lst:
             n += 1
-            ctx.count({'s': it['src'], 'e': it['edit']}, it['changed'])
+            ctx.count(it.get('key') or {'s': it['src'], 'e': it['edit']}, it['changed'])
             ctx.tally('edit_op', it['op'])
             ctx.tally('edit_field', it['field'])
             ctx.tally('edit_outcome', it['outcome'])
             ctx.tally('trivia_option', it['edit'].get('trivia'))
+            if it['op'] == 'replace2':
+                ctx.tally('two_step_multibyte_before_target', it.get('mb_before'))
             if it.get('bad_spans'):
                 ctx.tally('put_src_unordered_span', 'end_ln<0' if it['bad_spans'][0][2] < 0 else 'end_ln=ln-1')
             for sig, what, wit in co.classify(it):
@@ -273,6 +332,12 @@ def search(ctx):
 
 def replay(ctx, data):
     w = data.get('witness')
+    if w and 'trivia_value' in w:
+        v = tuple(w['trivia_value']) if w.get('tuple') or isinstance(w['trivia_value'], list) else w['trivia_value']
+        r = cc.run_trivia_value(('t', list(v), False) if isinstance(v, tuple) else ('v', v, False))
+        if r['ok'] and not r.get('legal'):
+            ctx.fail('C04|check_options|trivia|accepted-not-mapped', f'check_options accepts trivia={v!r} but it is not mapped', w)
+        return
     if not w or 'edit' not in w:
         print('replay file names a broken obligation or a raw splice, not a structured edit:', str(data.get('broken', data.get('what')))[:300])
         if w and 'a' in w:
@@ -285,6 +350,6 @@ def replay(ctx, data):
             if '\n'.join(impl['lines']) != flat[:o1] + '\n'.join(w['put'] or ['']) + flat[o2:]:
                 ctx.fail('replay', '_put_src result is not the flat-text splice', w)
         return
-    it = co.run_edit(w['src'], w['edit'])
+    it = co.run_two_step(w['src'], w['edit']) if w['edit'].get('op') == 'replace2' else co.run_edit(w['src'], w['edit'])
     for sig, what, wit in co.classify(it):
         ctx.fail(sig, what, w)
